@@ -111,6 +111,42 @@ func init() {
 	})
 }
 
+func u64of(b []int) uint64 {
+	var u uint64
+	for _, x := range b {
+		u = u<<8 | uint64(byte(x))
+	}
+	return u
+}
+
+// tpids: {"pred":[[8]..], "override":[[8]..]} ->
+//   {ev:"TPIsGrease", ids, res}       res[i] = GREASETransportParameter{}.IsGREASEID(ids[i])
+//   {ev:"TPOverride", ins, ids, bodies} for every IdOverride ins[i]: ids[i] = (&GREASETransportParameter{IdOverride}).ID(),
+//                                       bodies[i] = TransportParameters{that parameter}.Marshal() (a fresh parameter)
+func init() {
+	hlib.Register("tpids", func(in []byte, out *hlib.Out) error {
+		var req struct {
+			Pred     [][]int
+			Override [][]int
+		}
+		if err := json.Unmarshal(in, &req); err != nil {
+			return err
+		}
+		res := make([]bool, len(req.Pred))
+		for i, b := range req.Pred {
+			res[i] = tls.GREASETransportParameter{}.IsGREASEID(u64of(b))
+		}
+		out.Emit(map[string]any{"ev": "TPIsGrease", "ids": req.Pred, "res": res})
+		ids, bodies := []any{}, []any{}
+		for _, b := range req.Override {
+			ids = append(ids, be8((&tls.GREASETransportParameter{IdOverride: u64of(b), Length: 2}).ID()))
+			bodies = append(bodies, hlib.Ints(tls.TransportParameters{&tls.GREASETransportParameter{IdOverride: u64of(b), Length: 2}}.Marshal()))
+		}
+		out.Emit(map[string]any{"ev": "TPOverride", "ins": req.Override, "ids": ids, "bodies": bodies})
+		return nil
+	})
+}
+
 // ---------------------------------------------------------------- C04: GREASE in ClientHellos
 // constReader answers every read of exactly K bytes with the constant byte B and every other read with
 // real randomness (K = size of the GREASE seed read: forces equal seeds, i.e. the collision branch of ApplyPreset).
